@@ -42,6 +42,19 @@ pub fn run(a: &Args, out: &mut impl Write) {
         emit(out, u64::MAX - d, 0x1000);
         emit(out, 0x1000, (1u64 << 63) - 6 + d);
     }
+    // constants written in the source, as addresses and as displacements
+    for &l in &literal_pool() {
+        for d in [0u64, 1, u64::MAX] {
+            let v = l.wrapping_add(d);
+            for &o in &[0x1000u64, 0x5555_5555_0000, 0x7fff_ffff_f000] {
+                emit(out, o, v);
+                emit(out, v, o);
+                emit(out, o, o.wrapping_add(v));
+                emit(out, o, o.wrapping_sub(v));
+                emit(out, o, o.wrapping_add(5).wrapping_add(v));
+            }
+        }
+    }
     let mut r = Rng::new(a.seed);
     for _ in 0..a.n {
         let o = match r.below(4) {
